@@ -115,6 +115,8 @@ func runC11(p *Prog, r *Result) {
 	r.Rule("R11a", "after recoverError() returns false every path to the function's exit passes a call that always reports an error (mustError, computed)", 14)
 	r.Rule("R11d", "the recovery limit is read only inside recoverError(): no other branch depends on RecoverErrors being enabled", 4)
 	checkRecoveryGate(p, r, "R11d")
+	r.Rule("R11e", "a function that reads one statement list of a compound command through followStmts reads all of them through it: the empty list stays an mksh/zsh construct in every branch", 6)
+	checkStatementListsAgree(p, r, "R11e")
 	r.Rule("R11b", "every LangVariant constant tested against the parser's variant contains LangBash and LangBats together or neither", 100)
 	r.Rule("R11c", "construction sites of non-POSIX nodes, fields and operators are gated by a variant test excluding LangPOSIX", 80)
 
@@ -356,6 +358,8 @@ func checkRecoverErrorBody(p *Prog, r *Result, info *types.Info, fd *ast.FuncDec
 }
 
 var c11Controls = []Control{
+	{Name: "else-branch-read-without-the-empty-list-check", Rule: "R11e", WantKey: "ifClause#every statement list of the construct", File: "syntax/parser.go",
+		Mutate: ctlReplaceAnywhere("els.Then, els.ThenLast = p.followStmts(\"else\", els.Position, \"fi\")", "els.Then, els.ThenLast = p.stmtList(\"fi\")")},
 	{Name: "branch-on-recovery-enabled", Rule: "R11d", WantKey: "reads recoverErrorsMax", File: "syntax/lexer.go",
 		Mutate: ctlReplaceAnywhere("\t\t\tif p.parsingDoc {\n\t\t\t\tif r == runeEOF {", "\t\t\tif p.parsingDoc || p.recoverErrorsMax > 0 {\n\t\t\t\tif r == runeEOF {")},
 	{Name: "followRsrv-drop-error", Rule: "R11a", WantKey: "followRsrv#recoverError", File: "syntax/parser.go",
